@@ -45,6 +45,9 @@ def get_line_col_at_position(
 
     # Special handling of EOF
     if pos == len(text):
+        if not lines:
+            # Empty input
+            return 0, 0, "", None
         prev_line = lines[-2].rstrip("\n\r") if len(lines) > 1 else None
         return (
             len(lines) - 1,
